@@ -105,24 +105,6 @@ Definition variant_hdr_ok (m alen dl : Z) (dims : list Z) (p : val) : bool :=
 
 Definition norm_vbytes (v : val) : val := match v with VBytes (Some []) => VBytes None | _ => v end.
 
-(* every DateTime in the value is a multiple of 100 ns (what Buffer.ReadTime returns unless the uint64 product wrapped,
-   known finding datetime-out-of-range) *)
-Fixpoint grid (v : val) : bool :=
-  let lgrid := fix go (l : list val) : bool := match l with [] => true | x :: r => grid x && go r end in
-  let ogrid := fun (o : option val) => match o with None => true | Some x => grid x end in
-  let tgrid := fun (t : option Z) => match t with None => true | Some ns => Z.rem ns 100 =? 0 end in
-  match v with
-  | VTime t => tgrid t
-  | VSlice (Some l) => lgrid l
-  | VPtr o => ogrid o
-  | VStruct l => lgrid l
-  | VDiag _ _ _ _ _ _ _ i => ogrid i
-  | VDataValue _ x _ st _ svt _ => ogrid x && tgrid st && tgrid svt
-  | VVariant _ _ _ _ p => ogrid p
-  | VExtObj _ _ b => ogrid b
-  | _ => true
-  end.
-
 (* no extension object in the value carries a body that is an empty struct (known finding extobj-empty-struct) *)
 Definition is_empty_body (b : val) : bool := match b with VPtr (Some (VStruct [])) => true | _ => false end.
 Fixpoint noempty (v : val) : bool :=
